@@ -31,22 +31,26 @@ func snapToGridXY(dp int) func(XY) XY {
 // detecting this case and returning the input unaltered (for an overflow) or
 // as zero (for an underflow).
 func snapToGridFloat64(f float64, dp int) float64 {
+	var snapped float64
 	switch {
 	case dp > 0:
 		scale := math.Pow10(dp)
-		scaled := f * scale
-		if scaled > math.MaxFloat64 {
-			return f
-		}
-		return math.Round(scaled) / scale
+		snapped = math.Round(f*scale) / scale
 	case dp < 0:
 		scale := math.Pow10(-dp)
 		scaled := f / scale
 		if scaled == 0 {
 			return 0
 		}
-		return math.Round(scaled) * scale
+		snapped = math.Round(scaled) * scale
 	default:
 		return math.Round(f)
 	}
+	if math.IsInf(snapped, 0) || math.IsNaN(snapped) {
+		// The scale factor or an intermediate result overflowed (in either
+		// direction), so the grid is finer than (or beyond) what a float64
+		// can represent near f. Return the input unaltered.
+		return f
+	}
+	return snapped
 }
